@@ -535,22 +535,24 @@ def reshape(self, *newdims, **kwargs):
     # First unflatten the array to compare with flattened newdims
     o = self.unflatten()
 
-    # Temporarily replace "," by ";" in any dimension with is NOT a flattened axis, and flatten all dimensions apart from that
+    # Temporarily replace "," by a separator no name contains in any dimension with is NOT a flattened axis, and flatten all dimensions apart from that
+    # (a ';' used to stand in: a dimension genuinely named 'lat;lon' came back as 'lat,lon')
+    sep = '\x1f'
     newdims_renamed = []
     for d in newdims:
         if ',' in d and d in o.dims:
-            d = d.replace(',',';')
+            d = d.replace(',',sep)
         newdims_renamed.append(d)
     newdims_unflattened = _unflatten_dims(newdims_renamed) 
 
     assert len(newdims_unflattened) == len(set(newdims_unflattened)), "must not contain duplicate axes !"
 
     # (work on copies of such axes: `o` is `self`, or shares its Axis objects, when there was nothing to unflatten)
-    if any(',' in ax.name or ';' in ax.name for ax in o.axes):
+    if any(',' in ax.name or sep in ax.name for ax in o.axes):
         o = o._constructor(o.values, [ax.copy() for ax in o.axes], **o.attrs)
 
     for ax in o.axes:
-        ax.name = ax.name.replace(',',';')
+        ax.name = ax.name.replace(',',sep)
 
     # Remove unwanted singleton dimensions, if any
     for dim in o.dims:
@@ -577,9 +579,9 @@ def reshape(self, *newdims, **kwargs):
         if ',' in d:
             o = o.flatten(d.split(','), insert=i)
 
-    # Replace back ';' by ','
+    # Replace the separator back by ','
     for ax in o.axes:
-        ax.name = ax.name.replace(';',',')
+        ax.name = ax.name.replace(sep,',')
 
     if o.dims != tuple(newdims):
         raise ValueError("Could not perform reshaping, read documentation for acceptable arguments")
